@@ -14,7 +14,7 @@ pub fn def() -> PropDef {
         level: "exploration",
         profile,
         oracle: |_cfg| Box::new(C10::default()),
-        quick_runs: 30_000,
+        quick_runs: 60_000,
         thorough_runs: 800_000,
         panic_is_violation: false,
         rule: "run = seeded multi-replica history with later edits that add successors/deletes to old ops, merges, forks, clean restarts; at probe points and at the end, on every replica: every retrievable change is byte-identical to the bytes recorded at creation and its hash is the harness-computed SHA-256 of the chunk; get_changes(have) for have-sets drawn from the run = exactly the non-ancestors of have, each after its deps; get_changes_added / get_last_local_change likewise; all again after load(save()); non-trivial = some retrieved change has an op that later gained a successor; distinct by digest of the change DAG",
